@@ -640,6 +640,12 @@ package ion
 // symboltable.go: shared symbol tables. A shared table is immutable after construction:
 // every method has `modifies nothing` (C18) and the results below (C09).
 
+//@ func buildIndex
+//@ invariant loop0 [idx_ int] idx_ >= -1 && idx_ < len(symbols)
+//@ modifies nothing
+//@ ensures[C09] result != nil && vcFresh(result)
+//@ safe[C06]
+
 //@ func NewSharedSymbolTable
 //@ modifies nothing
 //@ ensures[C09,C10] result != nil && vcIsSST(result)
